@@ -8,3 +8,4 @@ import CheetahModel.Properties.C08
 #print axioms C08.marker_identity
 #print axioms C08.skippability_table
 #print axioms C08.energy_changing_or_nonlinear_not_skippable
+#print axioms C08.merge_arrivals
